@@ -184,8 +184,58 @@ func extractC18(repo string) (string, error) {
 			leanStr(hf.name), leanStr(hf.snapshot), hf.writes, hf.writesBefore, hf.validateOk, hf.rejectsRestore, hf.other, hf.wholeReplace, sep)
 	}
 	b.WriteString("]\n\n")
+	raise, err := c18RestoreFact(repo)
+	if err != nil {
+		return "", err
+	}
+	fmt.Fprintf(&b, "/-- apply_scheduler.go applyJob: `if st.AppliedRaftIndex < job.snapshot.Metadata.Index { st.AppliedRaftIndex = job.snapshot.Metadata.Index }` before Restore -/\ndef restoreFacts : RestoreFacts := { raiseOnlyIfLower := %v }\n\n", raise)
 	b.WriteString("end WK.Gen.C18\n")
 	return b.String(), nil
+}
+
+// c18RestoreFact: how applyJob reconciles the decoded snapshot's applied index
+// with the snapshot metadata index before handing it to Restore.
+func c18RestoreFact(repo string) (bool, error) {
+	_, f, err := parseFile(repo, "pkg/controller/raft/apply_scheduler.go")
+	if err != nil {
+		return false, err
+	}
+	fd := findMethod(f, "applyScheduler", "applyJob")
+	if fd == nil {
+		return false, fmt.Errorf("apply_scheduler.go: applyJob not found")
+	}
+	const assign = "st.AppliedRaftIndex=job.snapshot.Metadata.Index"
+	found, guarded, decoded, restored := 0, false, false, false
+	var walk func(list []ast.Stmt, cond string)
+	walk = func(list []ast.Stmt, cond string) {
+		for _, s := range list {
+			t := c18AssignText(s)
+			if as, ok := s.(*ast.AssignStmt); ok && len(as.Rhs) == 1 && exprText(as.Rhs[0]) == "state.Decode(job.snapshot.Data)" {
+				decoded = true
+			}
+			if t == assign {
+				found++
+				guarded = cond == "st.AppliedRaftIndex<job.snapshot.Metadata.Index"
+				if restored || !decoded {
+					found = 99
+				}
+			}
+			if ifs, ok := s.(*ast.IfStmt); ok {
+				if ifs.Init != nil && strings.Contains(c18AssignText(ifs.Init), "restorer.Restore(ctx,st)") {
+					restored = true
+				}
+				walk(ifs.Body.List, exprText(ifs.Cond))
+			}
+		}
+	}
+	walk(fd.Body.List, "")
+	if found == 0 {
+		return false, fmt.Errorf("applyJob: the snapshot applied index is no longer reconciled with the metadata index")
+	}
+	if found != 1 || !restored {
+		return false, fmt.Errorf("applyJob: unexpected shape of the snapshot install path")
+	}
+	return guarded, nil
 }
 
 type c18HF struct {
